@@ -22,7 +22,10 @@ CLAIMED = {
         'llc.ServiceDiscovery for all queue contents and all miu_size; llc.collect() proved against that interface '
         'with loop invariants over an unbounded list of service access points and an unbounded aggregate (list '
         'measure for the AGF length): the returned PDU/aggregate never exceeds cfg[send-miu] unless a raw access '
-        'point contributed; send()/sendto() refuse oversize messages before queuing; connect() clamps send_miu.',
+        'point contributed; send()/sendto() refuse oversize messages before queuing; connect() clamps send_miu. The '
+        'C11 contracts that len(pdu) is the length of the encoding and that a PDU decoded at any offset agrees with the '
+        'independent reading are obligations of this check too (the bound is computed from len(pdu); aggregation is '
+        'transparent only if members decode from their own octets).',
    design_ref='DESIGN.md Part A sections A.4 (this property), A.8',
    note='llc.sap is abstracted to the list of its active entries, each obeying the interface contract '
         '(models/llc_models.py, proved per implementing class); secure data transfer (self.sec) off; sorted() order '
@@ -51,7 +54,8 @@ CLAIMED = {
         'max_send/recv_data_size, _rdwr_connect (presence-check loop and LED phases), _llcp_connect, _card_connect, '
         'connect and __exit__, for all option/callback outcomes. self.device is havocked to None at every lock '
         'acquisition (another thread may have closed it), so a missing None check fails too; re-acquiring the '
-        'non-reentrant lock is an obligation (no self-deadlock).',
+        'non-reentrant lock is an obligation (no self-deadlock). The driver\'s close() may fail with IOError: the '
+        'frontend still drops the reference.',
    design_ref='DESIGN.md Part A sections A.4 (this property), A.8',
    note='Meta-argument (trusted): if every driver call is made with the one frontend lock held, driver calls from '
         'different threads cannot overlap; threads are not executed. nfc.tag.activate/emulate, device.connect and the '
@@ -66,7 +70,8 @@ CLAIMED = {
         'names), EFAULT/EACCES/EADDRINUSE/EAGAIN/EINVAL exactly in the stated cases with nothing changed, every other '
         'entry unchanged (frame), closing the last socket frees the address, a UI PDU is delivered only to the socket '
         'bound at its DSAP with payload and source intact, connect-by-name reaches the socket bound under the name or '
-        'answers DM.',
+        'answers DM; the service discovery responder answers a lookup with the address bound under the name, or 0 when '
+        'nothing is bound under it (well-known name or not).',
    design_ref='DESIGN.md Part A sections A.4 (this property), A.8',
    note='One socket per service access point in the table shape; service-name syntax check (regular expression) is an '
         'uninterpreted predicate; resolve() (blocking) and cross-device delivery are not covered (the channel is C10/C11); '
@@ -79,7 +84,9 @@ CLAIMED = {
         'dequeue and by the reception of I, RR and RNR PDUs, for all counter values (wrap-around included) and '
         'unbounded queues; send refuses oversize messages and a full window and otherwise appends I(N(S)=V(S)); an I '
         'PDU is accepted iff N(S)==V(R) and it fits the MIU, is appended at the tail, else FRMR; acknowledgements carry '
-        'N(R)=V(RA); connect/accept adopt the peer\'s MIU and RW; sequence state is written only under the lock.',
+        'N(R)=V(RA) (also the RR/RNR that announces a busy-state change), a PDU that does not fit the frame stays at '
+        'the head of the send queue; connect/accept adopt the peer\'s MIU and RW; sequence state is written only under '
+        'the lock.',
    design_ref='DESIGN.md Part A sections A.4 (this property), A.8',
    note='Per endpoint only: each method is one atomic step (lock discipline is checked); peer conformance (N(R) within '
         'V(SA)..V(S), N(S) within the window) is a precondition; blocking send (wait on a full window), thread schedules '
@@ -94,7 +101,9 @@ CLAIMED = {
         'values (both roles). NFC-DEP: ATR_REQ/ATR_RES encode and decode against independent layouts incl. the LR '
         'field; Initiator.activate and Target.activate against a peer modelled from the independent encoders: '
         'MIU + 3 + DID octet == / <= the LR the peer announced, RWT formula, general bytes, DID adoption, and the '
-        'announced LRi/GBi in the ATR_REQ that is sent.',
+        'announced LRi/GBi in the ATR_REQ that is sent. connect(llcp=...) hands the application\'s NFC-DEP options '
+        '(brs, acm, rwt, lrt, lri - zero and False included) to activate() unchanged; "all later traffic stays within '
+        'the limits" is C10, whose contracts are obligations of this check too.',
    design_ref='DESIGN.md Part A sections A.4 (this property), A.8',
    note='The MAC is replaced by assumed contracts in the LLC proofs; the radio (sense/listen/exchange) is an '
         'environment model; passive 106A activation without PSL (brs=0) and NAD unused; bit-rate selection and "all '
@@ -111,7 +120,10 @@ CLAIMED = {
         'write_to_ndef_service/_is_present): for every link behaviour and every response only the tag type\'s '
         'command error (or the documented ValueError for bad arguments) escapes; polling() returns a 2- or 3-tuple as '
         'requested; sector_select reports a new sector only after the passive acknowledge of its second packet; '
-        'IsoDepInitiator.exchange (shared with C12) turns every link error into Type4TagCommandError.',
+        'IsoDepInitiator.exchange (shared with C12) turns every link error into Type4TagCommandError; Type4Tag._is_present '
+        'returns a bool for every link error; FeliCa Lite _read_attribute_data returns None or attributes whether or '
+        'not the tag is authenticated; the Type 3 block commands with the largest block lists the NDEF code uses (15 '
+        'per READ, 12 per WRITE) are well-formed and return one block per requested block.',
    design_ref='DESIGN.md Part A sections A.4 (this property), A.8',
    note='The RF link is an environment model (models/clf_models.ExchangeClf). Not covered yet: NDEF-level operations '
         '(Tag.ndef, format, protect, authenticate, dump), vendor subclasses; '
@@ -127,7 +139,10 @@ CLAIMED = {
         'llc.activate returns a bool for arbitrary general bytes in both roles; Type3TagEmulation.process_command '
         'returns a response or None for every command (block-list parsers bounded to 2 services/2 blocks, not counted); '
         'SnepServer.process_snep_request answers every complete request of any content (request code, length field) '
-        'and raises nothing.',
+        'and raises nothing. DataLinkConnection.enqueue, for every PDU type the peer may address to a connection in any '
+        'state, never reaches a wait() without timeout (it runs in the link thread); str(pdu) of every PDU type raises '
+        'nothing for any field value (received PDUs are formatted eagerly for logging); a connection socket\'s waiters '
+        'are notified when its service access point is shut down.',
    design_ref='DESIGN.md Part A sections A.4 (this property), A.8',
    note='The MAC is an assumed contract (returns arbitrary general bytes). llc.exchange is under contract in C09, the '
         'handover server in C06. Not covered: run loops beyond C09, connect(); thread death and blocking are outside this family (DESIGN section 6).',
@@ -142,7 +157,9 @@ CLAIMED = {
         'BrokenLinkError, ProtocolError or IOError escape for all target kinds. ContactlessFrontend.exchange adds '
         'nothing but IOError(ENODEV) and releases its lock on every path. rcs380 send_rsp_recv_cmd: the error kind '
         'follows the status bits (RF_OFF: BrokenLinkError whatever else is set, else receive timeout: TimeoutError, '
-        'else TransmissionError).',
+        'else TransmissionError). pn53x in_data_exchange raises the 6-bit error code of its bit-field status octet (so '
+        '"errno 1 is a timeout" holds with MI/NAD bits set); Chipset.command\'s own contract (C14) is an obligation of '
+        'this check too.',
    design_ref='DESIGN.md Part A sections A.4 (this property), A.8',
    note='Assumed: a well-framed response carries the payload length its command defines; pn532 TT1 bit-reversal path '
         'and the CRC check are assumed total. Not covered: pn531/pn533/rcs956/acr122/arygon specific overrides, udp, '
@@ -159,7 +176,9 @@ CLAIMED = {
         'callbacks in the order discover, connect, release; on-release exactly once iff on-connect returned true; the '
         'documented return values, with the device reference possibly gone at every lock acquisition (frontend closed '
         'from a callback or another thread). connect(): TypeError iff an option is not a dict; None when no option survives '
-        'on-startup.',
+        'on-startup. A DEP target with a documented-valid ATR_REQ (16..64 octets) is handed to the driver; llc.activate() '
+        'is true exactly when THIS activation installed its MAC, whatever an earlier attempt on the same link '
+        'controller left behind.',
    design_ref='DESIGN.md Part A sections A.4 (this property), A.8',
    note='Driver, tag activation/emulation are environment models/assumed contracts; callbacks return documented types; '
         'the activation loop over several iterations, _llcp_connect ordering and "ends promptly" (time) are not covered; '
@@ -175,7 +194,8 @@ CLAIMED = {
         'collision-free MAC and 3DES): _authenticate returns true exactly when the tag model holds the derived card '
         'key (challenge octet order, session key derivation, MAC over the ID block with RC1 as IV), sets the session '
         'key only then; read_with_mac returns data only when the MAC field of this response equals the MAC of its data '
-        'field under the session key, for arbitrary (attacker chosen) responses.',
+        'field under the session key, for arbitrary (attacker chosen) responses; the real read command returns exactly '
+        '16 octets per requested block or raises (the MAC code slices the response from its end).',
    design_ref='DESIGN.md Part A sections A.4 (this property), A.8',
    note='Cryptography is idealised (pyDes triple_des and generate_mac are uninterpreted collision-free functions: '
         'unforgeability is assumed, not proved); generate_mac\'s body is out of reach; the tags are environment models '
@@ -195,7 +215,9 @@ CLAIMED = {
         'octets received since the previous request, handed over only after a strict completeness probe accepted '
         'those octets (interface preconditions at the call sites, loop invariants over the ghost input stream). '
         'HandoverClient.send_octets: fragments are the message in order, none longer than the socket MIU; recv_octets '
-        'returns exactly the octets received so far, only after the strict completeness probe accepted them.',
+        'returns exactly the octets received so far, only after the strict completeness probe accepted them. The '
+        'per-operation contracts of the data link connection (C05) are obligations of this check too: they are what '
+        'justifies the FIFO socket model on each endpoint.',
    design_ref='DESIGN.md Part A sections A.4 (this property), A.8',
    note='The socket is an environment model (C05 is its justification); ndef encode/decode are not inspected. Not '
         'covered: SnepClient.put/get header construction, the ndeflib '
@@ -231,7 +253,8 @@ CLAIMED = {
         '[DID] + [NAD] equals the LR of the Target for every DID/NAD option (NAD 0 included). '
         'Target.send_dep_res_recv_dep_req over the frame exchange replaced by its contract with ghost flags: a request '
         'repeated with the current PNI or a NAK is answered by the pending response, an attention request by an '
-        'attention response (loop invariant).',
+        'attention response (loop invariant). The Initiator transport step never reports a raw TransmissionError '
+        '(it is always answered by NAK/ATN retries): only the response, TimeoutError, ProtocolError or BrokenLinkError.',
    design_ref='DESIGN.md Part A sections A.4 (this property), A.8',
    note='NOT decided: exactly-once delivery and reassembly under fault scripts, the composition of two real endpoints '
         '(each is verified against an assumed contract of the step below it), termination of the Target recovery loop, '
@@ -270,7 +293,9 @@ CLAIMED = {
         'that image against a page-wise ghost tag (representation invariant, every intermediate tag state has the '
         'shape cache[0:4j] + old[4j:], only differing pages are written). Type 1, and Type 2 with reserved ranges '
         'inside the message area (TLV walk with skip bytes) are '
-        'bounded stand-ins (real code under CPython on 23/44 fixed layouts x boundary lengths, independent TLV reader) '
+        'bounded stand-ins (real code under CPython on 23/44 fixed layouts x boundary lengths, independent TLV reader); '
+        'the control-TLV helpers get_lock_byte_range/get_rsvd_byte_range of both tag types are proved against the '
+        'independent reading for every TLV value '
         'and not counted; the emulated Type 3 Tag is not covered.',
    design_ref='DESIGN.md Part A sections A.4 (this property), A.8',
    note='Tag memories are environment models: Type 3 service with atomic block-list writes; Type 4 short-APDU card '
